@@ -201,6 +201,10 @@ def observe_state(arg):
     o = {"profile": list(rep.quality_profile()), "fileProfile": fileprof,
          "hard": sum(t.hard_to_maintain for t in cb.totals.values()), "unm": sum(t.unmaintainable for t in cb.totals.values()),
          "findings": [u.measurement.value for u in rep.all_report_units_sorted_by_length_asc(30)], "root_profile": list(cb.tree["./"].profile)}
+    # reading is not writing: the same questions asked a second time, after everything above has been computed
+    o["profile_again"] = list(rep.quality_profile())
+    o["fileProfile_again"] = {fid: list(cb.files[fname].profile()) for fid, (fname, _l) in FILES.items()}
+    o["findings_again"] = [u.measurement.value for u in rep.all_report_units_sorted_by_length_asc(30)]
     if e2e:
         _SCRATCH = per_process("c02-scratch", lambda: scratch_dir("c02"))  # under the run's scratch root
         os.chdir(_SCRATCH)
@@ -234,6 +238,12 @@ def compare_state(funcs, exp, o):
         return "UnmaintainableCounter"
     if o["findings"] != list(exp["findings"]):
         return "FindingsList"
+    if o["profile_again"] != prof:
+        return "QualityProfile:SecondRead"
+    if any(o["fileProfile_again"][f] != fp[f] for f in FILES):
+        return "FileProfile:AfterReport"
+    if o["findings_again"] != list(exp["findings"]):
+        return "FindingsList:SecondRead"
     if "e2e" in o:
         e = o["e2e"]
         lst = exp["listing"]
